@@ -190,7 +190,8 @@ def to_trace(rules, imports, scans, run_events, maxm):
         if e == "ScanCall":
             si += 1
             s = scans[si]
-            out.append({"e": "Scan", "file": s["file"], "flags": s["flags"], "timeout": s["timeout"], "mode": s["mode"]})
+            f = dict(s["file"], nofs=True) if s["mode"] == "blocksnofs" else s["file"]
+            out.append({"e": "Scan", "file": f, "flags": s["flags"], "timeout": s["timeout"], "mode": s["mode"]})
         elif e == "Iter":
             out.append({"e": "Iter", "ans": ev["ans"], "b": ev.get("b", -1), "op": ev["op"]})
         elif e == "ScanSuspend":
